@@ -137,6 +137,15 @@ pub fn inline_all(m: &Model, method_types: &[&str]) -> std::collections::BTreeMa
         for f in m.fns.iter().filter(|f| f.self_ty.as_deref() == Some(*ty) && f.trait_.is_none()) {
             if f.sig.inputs.iter().any(|a| matches!(a, syn::FnArg::Receiver(_))) {
                 t.insert(format!(".{}", f.name), (params(f), f.block.clone()));
+                // the same method under the constructors of its type: a name that several of the listed types define is
+                // resolved by the receiver (`.name@Variant` for an enum, `.name@Struct` for a struct)
+                if let Some(e) = m.enums.iter().find(|e| e.name == *ty) {
+                    for v in &e.variants {
+                        t.insert(format!(".{}@{}", f.name, v), (params(f), f.block.clone()));
+                    }
+                } else {
+                    t.insert(format!(".{}@{}", f.name, ty), (params(f), f.block.clone()));
+                }
             } else if !t.contains_key(&f.name) {
                 // associated fn without receiver (`Self::name(..)` / `Type::name(..)`): looked up by its last path segment
                 t.insert(f.name.clone(), (params(f), f.block.clone()));
